@@ -15,6 +15,7 @@ RULE = (
     "(0 or 1 per hook). 'Before' hooks must see the pending object unstamped; an altering hook's change must show "
     "in the accepted record; registering a hook twice must be refused. Case = one run; distinct = (seed, hook "
     "tables); non-trivial = run in which some hook fired and some hook was filtered out."
+    ' Since the seeded rounds: a quarter of the probe events run as a subclass inheriting every handler, sessions with explicit empty event lists, Cancel objects sent again (occurrence = object x market time), every hook of every event re-registered after the run (must be refused).'
 )
 ASSUMPTIONS = [
     "occurrence time: market time at acceptance / fill time / session start for before-session / last step of "
